@@ -29,7 +29,11 @@ RULE = (
     "(a missing/outdated row is a harness error, exit 2). A case = (method, one generated value per parameter, which "
     "defaulted parameters are omitted, how many leading arguments are passed positionally (the rest by keyword), a logged "
     "cold/sync/hot source timeline shaped for the method (numbers, dicts, tuples, notifications, inner observables, a "
-    "connectable), the virtual clock (TestScheduler, or HistoricalScheduler with timedelta durations and absolute datetime "
+    "connectable), for the operator families whose callback result is polymorphic the RESULT KIND of the user mapper -- "
+    "flat_map / flat_map_indexed: an Observable, a plain iterable (list, tuple, generator, range, str, empty list, an "
+    "object with only __iter__), an already-resolved or failed concurrent.futures.Future, per element or mixed with "
+    "Observables, and the non-callable overload given such a constant; concat_map / switch_map / switch_map_indexed / "
+    "flat_map_latest: Observable or resolved/failed Future --, the virtual clock (TestScheduler, or HistoricalScheduler with timedelta durations and absolute datetime "
     "arguments for delay / delay_subscription / skip_until_with_time / take_until_with_time), probe scenario: inner-subscription policy for window/group outputs, optional dispose tick, connect tick "
     "for connectables). The case is executed twice on fresh identical labs: source.<method>(args) and "
     "source.pipe(ops.<same name>(same args)) (keyword names mapped by position onto the operator's own parameter names; "
@@ -44,6 +48,7 @@ ASSUMPTIONS = [
     "virtual time is cut at tick 60; sources of <=4 elements with gaps <=3 and durations <=6 finish well before",
     "replay(window=...) is always given the virtual scheduler explicitly (its default clock would be the wall clock)",
     "keyword arguments are mapped by position between the fluent and the operator signature (parameter *names* may differ by design, e.g. pluck_attr(attr) vs ops.pluck_attr(prop))",
+    "mapper result kinds are limited to what the piped operator itself documents/normalises (flat_map family: Observable, Future, anything from_() accepts; concat_map/switch_map/flat_map_latest family: Observable or Future); Futures are concurrent.futures.Future objects resolved before they are returned (no event loop runs in virtual time); whatever the piped form does with such a result, including raising, is the reference",
     "cases hitting the 90-same-instant-actions spin guard or the work budget in either world are discarded as inconclusive",
 ]
 
@@ -206,13 +211,94 @@ def _(ctx, slot, specs):
     return ctx.fn(slot, lambda g: ctx.src(specs[ctx.h(g.key) % len(specs)]))
 
 
-@kind("flatmapper", st.one_of(st.none(), s_inners.map(lambda x: {"fn": x}), s_inners.map(lambda x: {"fn": x}), s_src_cs.map(lambda x: {"obs": x})))
+# result kinds of a user mapper beyond "an Observable" (what ops.flat_map & co. normalise themselves: from_(iterable),
+# from_future(future)); the fluent method must hand the very same callable to the operator, so every kind must agree.
+RK_ITER = ["list", "tuple", "gen", "range", "str", "empty", "iterobj"]
+RK_FUT = ["future", "future-err"]
+
+
+class _IterOnly:
+    """An iterable that is neither a sequence nor a generator (only __iter__)."""
+
+    def __init__(self, items):
+        self._items = items
+
+    def __iter__(self):
+        return iter(list(self._items))
+
+
+def _plain_result(ctx, rk, xs):
+    """A non-Observable mapper result of kind rk, a pure function of (rk, xs)."""
+    n = ctx.h("rk", *xs) % 3
+    items = [("i", j) + tuple(xs) for j in range(n + 1)]
+    if rk == "list":
+        return items
+    if rk == "tuple":
+        return tuple(items)
+    if rk == "gen":
+        return (v for v in items)
+    if rk == "range":
+        return range(n + 1)
+    if rk == "str":
+        return "xyz"[: n + 1]
+    if rk == "empty":
+        return []
+    if rk == "iterobj":
+        return _IterOnly(items)
+    import concurrent.futures
+
+    f = concurrent.futures.Future()  # already resolved: from_future's done-callback runs synchronously on subscribe
+    if rk == "future":
+        f.set_result(("f",) + tuple(xs))
+    else:
+        f.set_exception(ValueError("future-failed:%d" % n))
+    return f
+
+
+def _inner_rk(ctx, slot, specs, rk, mix):
+    """Mapper whose result is an Observable for some elements (when mix) and a plain result of kind rk for the others."""
+
+    def f(*xs):
+        if mix and ctx.h("mix", *xs) % 3 == 0:
+            return ctx.src(specs[ctx.h(*xs) % len(specs)])
+        return _plain_result(ctx, rk, xs)
+
+    return ctx.fn(slot, f)
+
+
+s_rk_fn = lambda kinds: st.fixed_dictionaries({"fn": s_inners, "rk": st.sampled_from(kinds), "mix": st.booleans()})
+
+
+@kind(
+    "flatmapper",
+    st.one_of(
+        st.none(),
+        s_inners.map(lambda x: {"fn": x}),
+        s_inners.map(lambda x: {"fn": x}),
+        s_src_cs.map(lambda x: {"obs": x}),
+        s_rk_fn(RK_ITER),
+        s_rk_fn(RK_ITER + RK_FUT),
+        st.sampled_from(RK_ITER + RK_FUT).map(lambda k: {"const": k}),
+    ),
+)
 def _(ctx, slot, spec):
     if spec is None:
         return None
+    if "const" in spec:  # non-callable overload: one constant plain result for every element
+        return _plain_result(ctx, spec["const"], ())
+    if "rk" in spec:
+        return _inner_rk(ctx, slot, spec["fn"], spec["rk"], spec["mix"])
     if "fn" in spec:
         return _inner(ctx, slot, spec["fn"])
     return ctx.src(spec["obs"])
+
+
+# mappers of the operators that accept Observable-or-Future results (merge / switch_latest convert futures themselves)
+@kind("innerf", st.one_of(s_inners.map(lambda x: {"fn": x}), s_inners.map(lambda x: {"fn": x}), s_rk_fn(RK_FUT)))
+def _(ctx, slot, spec):
+    if "rk" in spec:
+        return _inner_rk(ctx, slot, spec["fn"], spec["rk"], spec["mix"])
+    return _inner(ctx, slot, spec["fn"])
 
 
 @kind("expandmapper", st.lists(st.fixed_dictionaries({"kind": st.sampled_from(["cold", "sync"]), "tl": timelines(max_len=2, max_dt=2, terminal=("C", "E"))}), min_size=1, max_size=2))
@@ -418,12 +504,12 @@ map: mapper=mapper
 reduce: accumulator=acc, seed=val
 scan: accumulator=acc, seed=val
 flat_map: mapper=flatmapper
-concat_map: project=inner
-switch_map: project=inner
+concat_map: project=innerf
+switch_map: project=innerf
 map_indexed: mapper_indexed=optmapper
 flat_map_indexed: mapper_indexed=flatmapper
-flat_map_latest: mapper=inner
-switch_map_indexed: mapper_indexed=inner
+flat_map_latest: mapper=innerf
+switch_map_indexed: mapper_indexed=innerf
 starmap: mapper=optmapper | shape=pair
 starmap_indexed: mapper_indexed=optmapper | shape=pair
 pluck: key=strkey | shape=dict
@@ -845,6 +931,12 @@ def _run_form(case, fparams):
     for pn, k in TABLE[m].params:
         if k == "durabs" and (pn in pos or pn in kw) and vals[pn]["abs"]:
             cls.append("abs-time:" + case.get("clock", "test"))
+        if k in ("flatmapper", "innerf") and (pn in pos or pn in kw) and isinstance(vals[pn], dict):
+            sp = vals[pn]
+            if "const" in sp:
+                cls.append("mapper-const:" + sp["const"])
+            elif "rk" in sp:
+                cls.append("mapper-result:" + sp["rk"] + ("+observable" if sp["mix"] else ""))
     if kw:
         cls.append("form:keyword")
     if pos:
